@@ -4,27 +4,31 @@ import StepupModel.Drv.C16
 import StepupModel.Drv.C17
 import StepupModel.Drv.C18
 import StepupModel.Drv.C20
+import StepupModel.Drv.K
 /-! Model driver: one request line in, one answer line out (see `StepupModel/Proto.lean`).
-Each property's requests are handled in `StepupModel/Drv/<ID>.lean`. -/
+Each property's requests are handled in `StepupModel/Drv/<ID>.lean`; `k ...` requests act on the
+kernel session carried by the loop. -/
 open StepupModel
 
-def dispatch (line : String) : String :=
+def dispatch (sess : Drv.K.Session) (line : String) : Drv.K.Session × String :=
   match line.splitOn " " with
-  | "c13" :: rest => (Drv.C13.handle rest).getD "bad-op"
-  | "c16" :: rest => (Drv.C16.handle rest).getD "bad-op"
-  | "c17" :: rest => (Drv.C17.handle rest).getD "bad-op"
-  | "c18" :: rest => (Drv.C18.handle rest).getD "bad-op"
-  | "c20" :: rest => (Drv.C20.handle rest).getD "bad-op"
-  | _ => "bad-op"
+  | "k" :: rest => (Drv.K.handle sess rest).getD (sess, "bad-op")
+  | "c13" :: rest => (sess, (Drv.C13.handle rest).getD "bad-op")
+  | "c16" :: rest => (sess, (Drv.C16.handle rest).getD "bad-op")
+  | "c17" :: rest => (sess, (Drv.C17.handle rest).getD "bad-op")
+  | "c18" :: rest => (sess, (Drv.C18.handle rest).getD "bad-op")
+  | "c20" :: rest => (sess, (Drv.C20.handle rest).getD "bad-op")
+  | _ => (sess, "bad-op")
 
-partial def loop (h : IO.FS.Stream) (out : IO.FS.Stream) : IO Unit := do
+partial def loop (h : IO.FS.Stream) (out : IO.FS.Stream) (sess : Drv.K.Session) : IO Unit := do
   let line ← h.getLine
   if line.isEmpty then return ()
   let line := if line.endsWith "\n" then (line.dropEnd 1).toString else line
-  out.putStrLn (dispatch line)
-  loop h out
+  let (sess, ans) := dispatch sess line
+  out.putStrLn ans
+  loop h out sess
 
 def main : IO Unit := do
   let out ← IO.getStdout
-  loop (← IO.getStdin) out
+  loop (← IO.getStdin) out {}
   out.flush
